@@ -64,6 +64,32 @@ def main():
     rc0, out0 = demo_run()
     meta["demo_passes_without"] = rc0 == 0
     rc, out = run(["git", "apply", patch], cwd=wt)
+    if rc:
+        rc, out = run(["git", "apply", "--3way", patch], cwd=wt)      # later fix: commits moved the context: merge
+        if rc:
+            run(["git", "checkout", "-q", "--", "."], cwd=wt)
+            run(["git", "reset", "-q", "--hard"], cwd=wt)
+        else:
+            run(["git", "reset", "-q"], cwd=wt)
+            meta["note"] = "applied with a 3-way merge (the context moved with later fix: commits)"
+    if rc:
+        # the change was written against an earlier /repo HEAD (before later fix: commits touched the same lines): judge it
+        # on the tree it was confirmed on
+        old = None
+        try:
+            old = json.load(open(os.path.join(VERIF, "seeded", "%s-%s" % (pid, label), "meta.json"))).get("repo_head")
+        except Exception:
+            pass
+        for base in [old, "b39d87d"]:
+            if not base:
+                continue
+            run(["git", "checkout", "-q", "--detach", base], cwd=wt)
+            rc, out = run(["git", "apply", patch], cwd=wt)
+            if rc == 0:
+                meta["repo_head"] = base
+                meta["note"] = "applied to the earlier /repo commit it was written against (does not apply to the current HEAD)"
+                rc0, out0 = 0, ""
+                break
     meta["applies"] = rc == 0
     if rc:
         print("patch does not apply:", out); meta["error"] = out[-500:]
